@@ -26,6 +26,26 @@ DEFAULT_OPAQUE = {'parse_immediate', 'lookup_register', 'is_int', 'log_constant'
                   'sign_extend', 'eval_immediate', 'lex_tokens', 'parse_item', 'read_lines', 'assemble', 'cli_main'}
 
 
+def always_raises(body):
+    return bool(body) and isinstance(body[-1], ast.Raise)
+
+
+def must_statements(body):
+    """Statements executed on every pass through `body` that does not raise: the top level, plus the surviving arm of an `if`
+    whose other arm always raises."""
+    out = []
+    for b in body:
+        if isinstance(b, ast.If):
+            if always_raises(b.orelse) and not always_raises(b.body):
+                out.extend(must_statements(b.body))
+                continue
+            if always_raises(b.body) and b.orelse and not always_raises(b.orelse):
+                out.extend(must_statements(b.orelse))
+                continue
+        out.append(b)
+    return out
+
+
 def walk_eager(node):
     """Sub-expressions evaluated exactly once when `node` is evaluated: bodies of lambdas, comprehensions, generator expressions
     (their variables are bound per call / per element) and the lazily evaluated operands of and / or / if-expressions are left out."""
@@ -1128,7 +1148,47 @@ class Walker:
             return self._assign_stmt(node, st, done, node)
         return self._stmt_rest(node, st, done)
 
+    def first_match_next(self, node, st):
+        """`X = next((k for k, preds in TABLE.items() if all(pred(args) for pred in preds)), default)`: (target name, keys,
+        predicate text, iterable value, default value) - the generator form of the first-match search loop - else None."""
+        val = node.value
+        if not (isinstance(val, ast.Call) and isinstance(val.func, ast.Name) and val.func.id == 'next' and 1 <= len(val.args) <= 2
+                and len(node.targets) == 1 and isinstance(node.targets[0], ast.Name)):
+            return None
+        g = val.args[0]
+        if isinstance(g, ast.Name):
+            g = self.__dict__.setdefault('_genexps', {}).get((id(st.env.get(g.id)), g.id))
+        if not (isinstance(g, ast.GeneratorExp) and len(g.generators) == 1):
+            return None
+        gen = g.generators[0]
+        if not (isinstance(gen.target, ast.Tuple) and len(gen.target.elts) == 2 and isinstance(g.elt, ast.Name)
+                and isinstance(gen.target.elts[0], ast.Name) and g.elt.id == gen.target.elts[0].id and len(gen.ifs) == 1
+                and isinstance(gen.ifs[0], ast.Call) and dotted(gen.ifs[0].func) == 'all'):
+            return None
+        it = self.sym(gen.iter, st)
+        if not (it[0] == 'mcall' and it[2] == 'items' and it[1][0] == 'dict' and all(is_const(k) for k, _ in it[1][1])):
+            return None
+        default = self.sym(val.args[1], st) if len(val.args) == 2 else ('opaque', 'StopIteration')
+        return node.targets[0].id, [k[1] for k, _ in it[1][1]], unparse(gen.ifs[0]), it, default
+
     def _assign_stmt(self, node, st, done, orig):
+        if isinstance(node.value, ast.GeneratorExp) and len(node.targets) == 1 and isinstance(node.targets[0], ast.Name):
+            # remember the expression behind a generator bound to a local (consumed later by next())
+            v = self.sym(node.value, st)
+            st.env[node.targets[0].id] = v
+            self.__dict__.setdefault('_genexps', {})[(id(v), node.targets[0].id)] = node.value
+            return [st]
+        fm = self.first_match_next(node, st)
+        if fm is not None:
+            var, keys, pred_text, it, default = fm
+            st.events.append(('search', it, pred_text, orig))
+            out = []
+            for kv in keys + [None]:
+                s2 = st.clone()
+                s2.env[var] = C(kv) if kv is not None else default
+                s2.events.append(('matched', C(kv), orig))
+                out.append(s2)
+            return out
         if True:
             v = self.sym(node.value, st)
             if self.name_results and v[0] in ('call', 'mcall', 'callv', 'ctx') and any(isinstance(n, ast.Call) for n in ast.walk(node.value)):
@@ -1287,6 +1347,12 @@ class Walker:
             return out
         if it[0] in ('tuple', 'list') and len(it[1]) <= 32 and not any(e[0] == 'star' for e in it[1]) and not node.orelse:
             return self.unrolled_for(node, it, st, done)
+        upd = self.dict_update_loop(node)
+        if upd is not None:
+            # for k, v in D.items(): [if test:] D[k] = f(v)     is     D.update({k: f(v) for k, v in D.items() [if test]})
+            dnode, comp = upd
+            st.events.append(('mcall', self.sym(dnode, st), 'update', (self.sym(comp, st),), (), node))
+            return [st]
         # generic
         names = self.assigned_names([node])
         s0 = st.clone()
@@ -1300,7 +1366,7 @@ class Walker:
         out = []
         # accumulator idiom: a local extended/appended exactly once per iteration at the top level of the loop body
         accs = {}
-        for b in node.body:
+        for b in must_statements(node.body):
             if (isinstance(b, ast.Expr) and isinstance(b.value, ast.Call) and isinstance(b.value.func, ast.Attribute)
                     and b.value.func.attr in ('extend', 'append') and isinstance(b.value.func.value, ast.Name)
                     and len(b.value.args) == 1 and b.value.func.value.id in st.env):
@@ -1345,6 +1411,37 @@ class Walker:
                 pass
         out.append(s0)
         return out
+
+    def dict_update_loop(self, node):
+        """(dict expression, equivalent DictComp node) for a loop that rewrites the values of the dict it iterates, else None."""
+        if node.orelse or not (isinstance(node.target, ast.Tuple) and len(node.target.elts) == 2 and all(isinstance(e, ast.Name) for e in node.target.elts)):
+            return None
+        it = node.iter
+        if isinstance(it, ast.Call) and isinstance(it.func, ast.Name) and it.func.id in ('list', 'tuple') and len(it.args) == 1:
+            it = it.args[0]
+        if not (isinstance(it, ast.Call) and isinstance(it.func, ast.Attribute) and it.func.attr == 'items' and not it.args
+                and isinstance(it.func.value, ast.Name)):
+            return None
+        dname = it.func.value.id
+        k, v = node.target.elts[0].id, node.target.elts[1].id
+        body = node.body
+        tests = []
+        while len(body) == 1 and isinstance(body[0], ast.If) and not body[0].orelse:
+            tests.append(body[0].test)
+            body = body[0].body
+        if not (len(body) == 1 and isinstance(body[0], ast.Assign) and len(body[0].targets) == 1):
+            return None
+        tgt = body[0].targets[0]
+        if not (isinstance(tgt, ast.Subscript) and isinstance(tgt.value, ast.Name) and tgt.value.id == dname
+                and isinstance(tgt.slice, ast.Name) and tgt.slice.id == k):
+            return None
+        if any(isinstance(n, ast.Name) and n.id == dname for t in tests + [body[0].value] for n in ast.walk(t)):
+            return None
+        comp = ast.DictComp(key=ast.Name(id=k, ctx=ast.Load()), value=body[0].value,
+                            generators=[ast.comprehension(target=node.target, iter=it, ifs=tests, is_async=0)])
+        ast.copy_location(comp, node)
+        ast.fix_missing_locations(comp)
+        return it.func.value, comp
 
     def unrolled_for(self, node, it, st, done):
         """`for x in (<literal elements>)`: the body is walked once per element, in order."""
@@ -1408,16 +1505,25 @@ class Walker:
         inner_done = []
         live = self.block(node.body, s1, inner_done)
         out = []
+        forever = self.decide(test, st) is True and is_const(test)
         for s in live + [s for s in inner_done if s.end in ('continue', 'break')]:
+            broke = s.end == 'break'
+            if forever and not broke:
+                continue           # `while True:` is only ever left through break / return / raise
             s.end = None
-            s.events.append(('endwhile', self.sym(node.test, s), node))
+            if broke and forever:
+                # the facts the exit rests on are the `if ...: break` conditions already on the path
+                s.events.append(('endwhile', C(False), node))
+            else:
+                s.events.append(('endwhile', self.sym(node.test, s), node))
             out.append(s)
         for s in inner_done:
             if s.end in ('raise', 'return'):
                 done.append(s)
-        s0 = st.clone()
-        s0.events.append(('endwhile0', test, node))
-        out.append(s0)
+        if not forever:
+            s0 = st.clone()
+            s0.events.append(('endwhile0', test, node))
+            out.append(s0)
         return out
 
     def try_stmt(self, node, st, done):
